@@ -14,10 +14,10 @@ StripAt(n) == IF n # "" /\ Ch(n, 1) = "@" THEN StripAt(Drop(n, 1)) ELSE n
 NormName(n) == IF StripAt(n) = "" THEN "default" ELSE StripAt(n)
 
 (* order of the normalised names used by the bounded instance (code point order) *)
-NameOrder == <<"\"q\"", "B", "a", "a@", "b", "default", "x'y", "ä b">>
+NameOrder == <<"\"q\"", "A", "B", "a", "a@", "b", "default", "x'y", "ä b">>     \* names are case-sensitive
 Rank(n) == CHOOSE i \in 1..Len(NameOrder) : NameOrder[i] = n
 
-Files == <<"f1.klg", "f 2.klg", "q\"3.klg", "ü4.klg">>
+Files == <<"f1.klg", "f 2.klg", "q\"3.klg", "ü4.klg", "d/f1.klg">>     \* the last one: same file name, other folder
 (* each file holds one entry of i hours, so that evaluating it tells which file was read *)
 FileMinutes(f) == 60 * (CHOOSE i \in 1..Len(Files) : Files[i] = f)
 
@@ -26,17 +26,25 @@ Has(db, n) == n \in DOMAIN db
 Put(db, n, f) == [m \in DOMAIN db \cup {n} |-> IF m = n THEN f ELSE db[m]]
 Del(db, n) == [m \in DOMAIN db \ {n} |-> db[m]]
 
-IsMutation(c) == c.op \in {"set", "setdefault", "unset", "clear"}
+(* `bookmarks clear` without --yes asks; the answer is the first line on standard input *)
+FirstLine(t) == LET e == FindIn(t, 1, {"\n"})
+                    l == Take(t, e - 1)
+                IN  IF l # "" /\ Ch(l, Len(l)) = "\r" THEN Take(l, Len(l) - 1) ELSE l
+Confirmed(c) == FirstLine(c.answer) \in {"y", "Y"}
+IsMutation(c) == c.op \in {"set", "setdefault", "unset", "clear", "clearask"}
 (* the model: does the command succeed, and the database after it *)
 Succeeds(db, c) == CASE c.op = "unset" -> Has(db, NormName(c.name))
                      [] c.op = "info" -> Has(db, NormName(c.name))
                      [] c.op = "resolve" -> Has(db, NormName(c.name))
                      [] c.op = "resolvedefault" -> Has(db, "default")
+                     [] c.op \in {"resolvemix", "resolvemix2"} -> Has(db, NormName(c.name))
+                     [] c.op = "clearask" -> c.answer # ""          \* nothing to read: the command fails
                      [] OTHER -> TRUE
 After(db, c) == CASE c.op = "set" -> Put(db, NormName(c.name), c.file)
                   [] c.op = "setdefault" -> Put(db, "default", c.file)
                   [] c.op = "unset" -> IF Has(db, NormName(c.name)) THEN Del(db, NormName(c.name)) ELSE db
                   [] c.op = "clear" -> EmptyDb
+                  [] c.op = "clearask" -> IF c.answer # "" /\ Confirmed(c) THEN EmptyDb ELSE db
                   [] OTHER -> db
 
 RECURSIVE SortedNames(_)
@@ -55,4 +63,8 @@ ToArgs(c) ==
       [] c.op = "info" -> <<"bookmarks", "info", c.name>>
       [] c.op = "resolve" -> <<"total", "--decimal", "--no-warn", "--no-style", "@" \o NormName(c.name)>>
       [] c.op = "resolvedefault" -> <<"total", "--decimal", "--no-warn", "--no-style">>
+      (* a bookmark next to a plain file, in both orders: the records of both *)
+      [] c.op = "resolvemix" -> <<"total", "--decimal", "--no-warn", "--no-style", Files[1], "@" \o NormName(c.name)>>
+      [] c.op = "resolvemix2" -> <<"total", "--decimal", "--no-warn", "--no-style", "@" \o NormName(c.name), Files[2]>>
+      [] c.op = "clearask" -> <<"bookmarks", "clear">>
 =============================================================================
